@@ -78,6 +78,7 @@ type switchInfo struct {
 	Cases     map[string]*ast.CaseClause
 	Default   string // "panic", "none", "other"
 	HasSwitch bool
+	Var       string // variable bound by the switch (`switch v := x.(type)`), "" if none
 }
 
 // typeSwitchOn finds the first type switch in fd whose tag is the parameter named param.
@@ -93,6 +94,9 @@ func typeSwitchOn(fd *ast.FuncDecl, param string) *switchInfo {
 		case *ast.AssignStmt:
 			if ta, ok := a.Rhs[0].(*ast.TypeAssertExpr); ok {
 				tag = nospace(ta.X)
+				if tag == param {
+					si.Var = nospace(a.Lhs[0])
+				}
 			}
 		case *ast.ExprStmt:
 			if ta, ok := a.X.(*ast.TypeAssertExpr); ok {
